@@ -320,8 +320,52 @@ def run(ctx):
                         out.append((bb_, w_, tgt))
         return out
 
+    def words_from_tables(g, Tg):
+        """the words of `TABLE.iter()[.chain(OTHER.iter())].any(|&w| w == s)` / `TABLE.contains(&s)` with constant tables, when that is
+        what the predicate returns"""
+        gp = ("param", 1, g.local_name(1))
+        acc = set()
+        for a_ in M.alts(Tg.local(0)):
+            a_ = M.noref(a_)
+            if a_[0] != "call":
+                return None
+            tabs = []
+            M.contains(a_[2][0], lambda u: tabs.append(u[2]) or False if (u[0] == "const" and len(u) > 2 and isinstance(prog.consts.get(u[2]), list)) else False)
+            src_ok = not M.contains(a_[2][0], lambda u: u[0] == "call" and u[1].split("::")[-1] not in ("iter", "into_iter", "chain", "copied", "cloned", "deref"))
+            if a_[1].endswith("Iterator>::any") or a_[1] == "std::iter::Iterator::any":
+                cl = a_[2][1]
+                if not (cl[0] == "agg" and cl[1][0] == "closure" and cl[1][1] in prog.fns and len(cl[2]) == 1 and M.noref(M.strip(cl[2][0])) == gp):
+                    return None
+                cf = prog.fns[cl[1][1]]
+                Tc_ = M.Terms(cf)
+                cs_ = [(M.callee_str(t_["f"]), [M.noref(M.strip(Tc_.operand(x))) for x in t_["args"]]) for _, t_ in cf.calls()]
+                if len(cs_) != 1 or not cs_[0][0].endswith("::eq") or len(cs_[0][1]) != 2:
+                    return None
+                x_, y_ = cs_[0][1]
+                item_, cap_ = ("param", 2, cf.local_name(2)), ("field", ("param", 1, cf.local_name(1)), "0")
+                is_item = lambda z: z == item_ or M.contains(z, lambda u: u == item_)
+                is_cap = lambda z: M.contains(z, lambda u: u == cap_ or (u[0] == "field" and u[1] == ("param", 1, cf.local_name(1))))
+                if not ((is_item(x_) and is_cap(y_)) or (is_item(y_) and is_cap(x_))) or M.noref(Tc_.local(0))[0] != "call":
+                    return None
+            elif a_[1].endswith("<impl [T]>::contains"):
+                if M.noref(M.strip(a_[2][1])) != gp:
+                    return None
+            else:
+                return None
+            if not tabs or not src_ok:
+                return None
+            for t_ in tabs:
+                vals = prog.consts.get(t_)
+                if not all(isinstance(v_, str) for v_ in vals):
+                    return None
+                acc |= set(vals)
+        return acc
+
     def words_accepted_by(g):
         Tg = M.Terms(g)
+        tw = words_from_tables(g, Tg)
+        if tw is not None:
+            return tw
         acc = set()
         for bb_, w_, tgt in eq_words(g, Tg, ("param", 1, g.local_name(1))):
             ex_ = M.Explore(g, start=tgt)
